@@ -599,9 +599,14 @@ def literal_tokens(tier):
         est = (len(d) * 3322 + 678) // 1000 - (1 if int(d[0]) * 2 < 10 else 0)
         return int(d).bit_length() <= max(est, 31)
     wide = [t for t in wide if compiles(t)]
+    # constants beyond 64 bits (the _c literal yields 128-bit constants): many trailing zero bits, odd 65-bit values
+    c += ["0x10000000000000000", "0x20000000000000000", "0x7F000000000000000000", "0x10000000000000001",
+          "0x40000000000000000000000000000000", "0x%x" % (rnd.getrandbits(100) | (1 << 99))]
+    big = [(1, 64), (1, 65), (-1, 65), (1, 72), (127, 72), (1, 100), (-3, 100), (1, 126), (5, 64), (rnd.randrange(3, 1 << 40, 2), 70)]
     lines = ["LIT_C(%s)" % t for t in sorted(set(c))] + ["LIT_CNL(%s)" % t for t in sorted(set(cnl))] + \
             ["LIT_CNL2(%s)" % t for t in sorted(set(cnl2))] + ["LIT_WIDE(%s)" % t for t in sorted(set(wide))] + \
-            ["MAKE_C(%dLL)" % v for v in sorted(set(mk))]
+            ["MAKE_C(%dLL)" % v for v in sorted(set(mk))] + \
+            ["MAKE_C((static_cast<__int128>(%dLL) << %d))" % mk2 for mk2 in big] + ["MAKE_C(((static_cast<__int128>(1) << 64) + 1))"]
     return lines
 
 
